@@ -321,6 +321,19 @@ def finalGas (e : Env) (spec floorGas eip7702Refund : Nat) (res : Interp.ChildRe
   -- EIP-7623 floor
   if Gas.spentSubRefunded gas < floorGas then Gas.setRefund (Gas.setSpent gas floorGas) 0 else gas
 
+/-- `output`: the `ExecutionResult` of a class, from the first frame's result, the final meter and the logs -/
+def txResultOf (cls : ResultClass) (res : Interp.ChildResult) (isCreate : Bool) (gas : Gas.Gas) (logs : List LogRec) :
+    TxResult :=
+  let gasRefunded := Gas.i64AsU64 gas.refunded
+  let finalGasUsed := U64ops.wsub (Gas.spent gas) gasRefunded
+  match cls with
+  | .success => { cls := cls, reason := res.result, gasUsed := finalGasUsed, gasRefunded := gasRefunded,
+                  output := res.output, created := if isCreate then res.address else none, logs := logs }
+  | .revert => { cls := cls, reason := res.result, gasUsed := finalGasUsed, gasRefunded := 0, output := res.output,
+                 created := none, logs := [] }
+  | .halt => { cls := cls, reason := res.result, gasUsed := finalGasUsed, gasRefunded := 0, output := [],
+               created := none, logs := [] }
+
 /-- `reimburse_caller`, `reward_beneficiary`, `output` -/
 def finish (e : Env) (spec floorGas eip7702Refund : Nat) (isCreate : Bool) (res : Interp.ChildResult) (w : World) :
     R (TxResult × World) := do
@@ -341,18 +354,9 @@ def finish (e : Env) (spec floorGas eip7702Refund : Nat) (isCreate : Bool) (res 
                            info := { bacc.info with balance := U256.saturatingAdd bacc.info.balance reward } }
   let w := { w with js := Journal.setAcct w.js e.block.coinbase bacc' }
   -- output
-  let gasRefunded := Gas.i64AsU64 gas.refunded
-  let finalGasUsed := U64ops.wsub (Gas.spent gas) gasRefunded
   let cls ← ofOpt "unexpected internal return flag" (classOf res.result)
   let logs := w.js.logs.filterMap (fun i => w.logs[i]?)
-  let r : TxResult := match cls with
-    | .success => { cls := cls, reason := res.result, gasUsed := finalGasUsed, gasRefunded := gasRefunded,
-                    output := res.output, created := if isCreate then res.address else none, logs := logs }
-    | .revert => { cls := cls, reason := res.result, gasUsed := finalGasUsed, gasRefunded := 0, output := res.output,
-                   created := none, logs := [] }
-    | .halt => { cls := cls, reason := res.result, gasUsed := finalGasUsed, gasRefunded := 0, output := [],
-                 created := none, logs := [] }
-  pure (r, w)
+  pure (txResultOf cls res isCreate gas logs, w)
 
 /-- `transact_preverified_inner` after validation -/
 def execute {κ : Type} (C : CpOps κ) (fuel : Nat) (e : Env) (spec initialGas floorGas : Nat) (w : World) :
